@@ -126,6 +126,15 @@ func verifBlockedThreads() int               { return 0 }
 func verifUF1(name string, x float64) float64 { return x }
 func verifUF2(name string, x, y float64) float64 { return x }
 
+// verifSameArray reports whether two byte slices are views of the same backing array (both views must
+// extend to the end of the array's capacity, which holds for slices obtained by re-slicing).
+func verifSameArray(a, b []byte) bool {
+	if cap(a) == 0 || cap(b) == 0 {
+		return false
+	}
+	return &a[:cap(a)][cap(a)-1] == &b[:cap(b)][cap(b)-1]
+}
+
 // verifSetField stores v into the (possibly unexported) field of the struct p points to; path is a
 // dot-separated field path. It lets a harness build partial objects of other packages' types.
 func verifSetField(p any, path string, v any) {
